@@ -25,6 +25,8 @@ EXPLANATION = (
 
 def run(ctx):
     model = ctx.model
+    from .. import roles as _roles
+    R = _roles.get(model)
     ctx.rule("R02.side", "the side stored and broadcast by `add` is the connection's "
              "bind side, which only the bind handler assigns")
     ctx.rule("R02.order", "INSERT + COMMIT precede the first listener callback")
@@ -121,7 +123,7 @@ def run(ctx):
             truth = pc_truth(p.pc)
             lis = None
             for t, v in truth.items():
-                if t[0] == "attr" and t[2] == "_listening":
+                if t[0] == "attr" and t[2] == R.listening_attr:
                     lis = v
             yield p, lis
 
@@ -134,7 +136,7 @@ def run(ctx):
                   e["key"] is not None and e["key"][0] == "obj"
                   for e, _ in all_events(p, ("reg_del",)))
         # only paths that reach the close call
-        reached = any(e["callee"] == "Mailbox.close" for e, _ in all_events(p, ("call",)))
+        reached = any(e["callee"] == R.close_op for e, _ in all_events(p, ("call",)))
         if reached:
             ctx.ob("R02.key", "%s: listener removed when listening" % h_close, rem,
                    p.events[-1], "" if rem else "a close on a listening connection leaves "
